@@ -29,6 +29,9 @@ from .extract import Index
 VERBOSITY_PARAMS = {"printitn", "printinneritn", "verbosity", "disp_warn", "dispLineWarn", "display_warning"}
 VERBOSITY_ATTRS = {"_printitn"}
 MODULES = ("pyttb.cp_als", "pyttb.cp_apr", "pyttb.hosvd", "pyttb.tucker_als", "pyttb.gcp_opt", "pyttb.gcp.optimizers")
+#: modules whose random draws feed the algorithms (samplers, generators, initial guesses): entropy clause only
+ENTROPY_MODULES = MODULES + ("pyttb.gcp.samplers", "pyttb.gcp.fg_setup", "pyttb.gcp.fg_est", "pyttb.gcp.fg", "pyttb.sptensor", "pyttb.tensor",
+                             "pyttb.ktensor", "pyttb.ttensor", "pyttb.pyttb_utils")
 PRINT_CALLS = {"print"}
 PRINT_ROOTS = {"logging", "warnings"}
 PURE_FUNCS = {"divmod", "len", "sum", "float", "int", "str", "abs", "min", "max", "round", "repr", "format", "range"}
@@ -317,9 +320,18 @@ def obligations(index: Index):
     out = []
     n_fn = 0
     for q, fi in sorted(index.funcs.items()):
-        if not any(q.startswith(m + ".") for m in MODULES):
+        if not any(q.startswith(m + ".") for m in ENTROPY_MODULES):
             continue
         f = _Fn(fi, an)
+        if not any(q.startswith(m + ".") for m in MODULES):
+            # outside the algorithm modules only the entropy clause applies, and only where something is drawn
+            f.check_entropy()
+            src = ast.unparse(fi.node)
+            if "random" in src or f.viol["entropy"]:
+                v = f.viol["entropy"]
+                out.append(dict(name=f"{q}#noninterference:{CLAUSES['entropy']}", function=q, kind="noninterference", line=fi.node.lineno,
+                                status="discharged" if not v else "refuted", backend="ast-dataflow(pyvc.noninterf)", time=0.0, solver_output="; ".join(v)[:3000]))
+            continue
         f.propagate()
         if f.relevant():
             f.walk(f.node.body, False)
